@@ -3,7 +3,8 @@
 The rules were written against the functions of the pinned tree (ghverif/known_functions.txt).  An extract-method refactor
 moves statements of such a function into a NEW helper; rules that look at the statements of the original function would
 then see a call they know nothing about.  Before anything is indexed, every call of a package function that is not on the
-list and whose body is straight-line (simple statements, at most one trailing return) is replaced by that body:
+list and whose body has one way out (falling off its end, or a single `return` as its last statement; no try / with / nested
+definitions) is replaced by that body:
 
     x = self._helper(a, b)      ->      <body with the parameters bound>;  x = <returned expression>
 
@@ -34,14 +35,12 @@ def _inlinable(fn: ast.FunctionDef) -> bool:
     body = [s for s in fn.body if not (isinstance(s, ast.Expr) and isinstance(s.value, ast.Constant))]
     if not body:
         return False
-    for k, s in enumerate(body):
-        if isinstance(s, ast.Return):
-            if k != len(body) - 1:
-                return False
-        elif not isinstance(s, SIMPLE):
-            return False
+    # any statements, as long as the only way out is falling off the end or ONE return as the last statement
+    n_ret = sum(1 for x in ast.walk(fn) if isinstance(x, ast.Return))
+    if n_ret > 1 or (n_ret == 1 and not isinstance(body[-1], ast.Return)):
+        return False
     for x in ast.walk(fn):
-        if x is not fn and isinstance(x, (ast.FunctionDef, ast.AsyncFunctionDef, ast.Lambda, ast.ClassDef, ast.Yield, ast.YieldFrom, ast.Await, ast.Global, ast.Nonlocal)):
+        if x is not fn and isinstance(x, (ast.FunctionDef, ast.AsyncFunctionDef, ast.Lambda, ast.ClassDef, ast.Yield, ast.YieldFrom, ast.Await, ast.Global, ast.Nonlocal, ast.Try, ast.With)):
             return False
         if isinstance(x, ast.Call) and isinstance(x.func, ast.Name) and x.func.id in ("locals", "vars", "super"):
             return False
@@ -74,7 +73,24 @@ class _Counter:
     n = 0
 
 
-def _expand(call: ast.Call, callee: ast.FunctionDef, is_method: bool, caller: ast.FunctionDef, targets_same: List[str]):
+def _live_after(caller: ast.FunctionDef, stmt: ast.stmt) -> set:
+    """names the caller may read after `stmt` has run (conservative: everything inside a loop that contains the statement)"""
+    out = set()
+    end = getattr(stmt, "end_lineno", stmt.lineno)
+    for x in ast.walk(caller):
+        if isinstance(x, (ast.For, ast.While)) and any(y is stmt for y in ast.walk(x)):
+            for z in ast.walk(x):
+                if isinstance(z, ast.Name) and not any(z is w for w in ast.walk(stmt)):
+                    out.add(z.id)
+    for x in ast.walk(caller):
+        if isinstance(x, ast.Name) and isinstance(x.ctx, (ast.Load, ast.Del)) and getattr(x, "lineno", 0) > end:
+            out.add(x.id)
+        if isinstance(x, ast.AugAssign) and isinstance(x.target, ast.Name) and getattr(x, "lineno", 0) > end:
+            out.add(x.target.id)
+    return out
+
+
+def _expand(call: ast.Call, callee: ast.FunctionDef, is_method: bool, caller: ast.FunctionDef, targets_same: List[str], live_after: Optional[set] = None):
     """-> (statements, returned expression or None) for one call, or None when the arguments cannot be bound"""
     a = callee.args
     ps = [x.arg for x in a.posonlyargs + a.args]
@@ -114,6 +130,8 @@ def _expand(call: ast.Call, callee: ast.FunctionDef, is_method: bool, caller: as
             # the parameter is rebound in the helper, or the argument is an expression: bind it once
             if isinstance(arg, ast.Name) and arg.id == p_ and p_ not in stored:
                 continue
+            if isinstance(arg, ast.Name) and arg.id == p_ and live_after is not None and (p_ not in live_after or p_ in targets_same):
+                continue  # the helper works on a copy of the caller's local, and the caller never looks at the old value again
             new = p_ + suffix if p_ in caller_names and not (isinstance(arg, ast.Name) and arg.id == p_) else p_
             if p_ in stored and isinstance(arg, ast.Name) and arg.id == p_:
                 new = p_ + suffix
@@ -263,7 +281,7 @@ def inline_unknown_helpers(trees: Dict[str, ast.Module], known: Optional[set] = 
                 if isinstance(s, ast.Assign) and len(s.targets) == 1:
                     t = s.targets[0]
                     tnames = [e.id for e in (t.elts if isinstance(t, (ast.Tuple, ast.List)) else [t]) if isinstance(e, ast.Name)]
-                ex = _expand(call, cand[q], is_m, caller, tnames)
+                ex = _expand(call, cand[q], is_m, caller, tnames, _live_after(caller, s))
                 if ex is None:
                     out.append(s)
                     continue
